@@ -71,3 +71,13 @@ Example C02_accepted_call :
                      [[1%nat]; []] [0%nat] None false (mk_store [] [] 0%nat))) [0%nat; 1%nat]
   = [Some (1%nat, ([], [(70%Z, 1%Z)])); Some (0%nat, ([], [(8%Z, 1%Z)]))].
 Proof. vm_compute. reflexivity. Qed.
+
+(* the executed (QN) model of mtl_backward, mapped to R, is the real model the theorems speak about *)
+From TJ.proofs Require Import TransferProofs.
+Theorem C02_executed_model_is_the_real_model : forall (P : prog Q) A A', agg_hom Q2R A A' ->
+  forall losses features tasks shared k retain s,
+  mtl_backward_model RN (mprog Q2R P) A' losses features tasks shared k retain (mstore Q2R s)
+  = (mres Q2R (fst (mtl_backward_model QN P A losses features tasks shared k retain s)),
+     mstore Q2R (snd (mtl_backward_model QN P A losses features tasks shared k retain s))).
+Proof. exact mtl_Q_to_R. Qed.
+Print Assumptions C02_executed_model_is_the_real_model.
